@@ -56,8 +56,8 @@ CHECKS.append(
     dict(id="C20", level="other", engine="E1+E2+E3",
          text="Per native Term/TryFromTerm impl: datatype constants, boolean constants, plain `{}` rendering with the "
               "Display language included in the XSD lexical space, Display of f64 only off the is_infinite() edge with "
-              "INF/-INF constants; conversions parse the lexical form only behind whitelisted datatype tests and on the literal branch, as the Rust type whose value space is the datatype's (xsd:float as f32); the SPARQL engine's own formatting of computed floats/doubles is on the finite edge of a test (one known finding) and of decimals in plain notation. Decides the construction tables, not std's numeric round trip.",
-         note="Trusted: rustc MIR, std Display/FromStr behaviour as stated in the evidence assumptions. Known finding: SparqlValue::lexical_form writes computed infinities as \"inf\" (pinned by two unit tests of the repository).",
+              "INF/-INF constants; conversions parse the lexical form only behind whitelisted datatype tests and on the literal branch, as the Rust type whose value space is the datatype's (xsd:float as f32); the SPARQL engine's own formatting of computed floats/doubles is on the finite edge of a test (one known finding) and of decimals in plain notation; an integer conversion whose datatype has bounds the target type lacks, and the f64 conversion handing any lexical form to Rust's parser, are reported (four known findings). Decides the construction tables, not std's numeric round trip.",
+         note="Trusted: rustc MIR, std Display/FromStr behaviour as stated in the evidence assumptions. Known finding: SparqlValue::lexical_form writes computed infinities as \"inf\" (pinned by two unit tests of the repository); i32/isize/usize conversions do not check the datatype's own range (\"-5\"^^xsd:nonNegativeInteger converts); f64 accepts \"inf\", \"1e3\"^^xsd:decimal.",
          technique="static: table agreement + edge-dominance over MIR; one DFA inclusion"))
 CHECKS.append(
     dict(id="C03", level="proof", engine="E1+E2+E3",
@@ -83,7 +83,7 @@ CHECKS.append(
          text="Error discipline of the stream machinery decided on every path of every function in scope: no Result of a call "
               "is dropped or left behind on an early return; adapter closures call the downstream callback at most once per "
               "item; SourceError never wraps a callback result and SinkError always does; variant-preserving re-wrapping; "
-              "try_for_each_item loops exactly while Ok(true); swapped-out buffers restored on all paths; item buffers are first-in-first-out; a writer's io::Error is never re-wrapped; no collector pre-allocates a size hint; filtering adapters do not forward the source's lower bound. Decides the "
+              "try_for_each_item loops exactly while Ok(true); swapped-out buffers restored on all paths; item buffers are first-in-first-out; a writer's io::Error is never re-wrapped; no collector pre-allocates a size hint; filtering adapters do not forward the source's lower bound; the iterator adapters never poll their source again after an error or the end; a serializer that owns its writer flushes it before reporting success. Decides the "
               "structural necessary conditions of 'exact prefix, right blame', not the third-party parsers' bookkeeping.",
          note="Trusted: rustc MIR (destination types, resolved callees). A Result handed to another function or stored counts "
               "as delivered.",
@@ -128,7 +128,7 @@ CHECKS.append(
          text="Agreement of every comparison code path: TermKind discriminants/derived order; all ~60 PartialEq/Hash/PartialOrd/Ord "
               "impls on Term types delegate to Term::eq/hash/cmp or are audited single-string wrappers; overrides of Term::eq/cmp/"
               "hash are pure forwards (NsTerm::eq: prefix test AND remainder equality); default eq/cmp/hash name all five kinds and "
-              "hash reads only what eq compares, cmp at least what eq compares, no structure-flattening accessor, and the literal arm of cmp looks at tag presence when only one side is tagged; no Term accessor is an unconditional panic; language tags compared/hashed only through LanguageTag's case-folding impls; "
+              "hash reads only what eq compares, cmp at least what eq compares, no structure-flattening accessor, and the literal arm of cmp orders all literals by ONE key sequence in which tag presence comes before anything the tagged branch does not share (the two-key form is cyclic); no unchecked unwrap of a Term accessor in the conversions; no Term accessor is an unconditional panic; language tags compared/hashed only through LanguageTag's case-folding impls; "
               "conversions rebuild the same kind from the matching accessor; accessor/kind consistency of all Term impls. Decides "
               "the reduction of the laws to component orders, not the laws on values.",
          note="Trusted: std's str/char comparison and hashing; rustc item facts (derive markers, discriminants) and MIR.",
@@ -140,7 +140,7 @@ CHECKS.append(
               "remove for every ordered set, guarded secondary writes, returned flag; every range scan over the set whose key order "
               "starts with the fixed roles with covering bounds; every non-fixed role filtered by its own matcher on its own "
               "position; results re-ordered to (g,[s,p,o]); unknown constants touch no set; matching-iterator caches; constant() "
-              "contract of all matcher impls; bulk-operation counters; index-full reported before any mutation; index sets written only by insert/remove; range bounds are ZERO/MAX at every free position (no reliance on what a TermIndex issues); the flags of the Vec/HashSet/BTreeSet-backed collections are the container's own or true exactly after a change, and list-backed removal covers every occurrence. Decides these structural necessary conditions for all "
+              "contract of all matcher impls; bulk-operation counters; index-full reported before any mutation; index sets written only by insert/remove; range bounds are ZERO/MAX at every free position (no reliance on what a TermIndex issues); the flags of the Vec/HashSet/BTreeSet-backed collections are the container's own or true exactly after a change, and list-backed removal covers every occurrence; the union-graph view forwards only subjects/predicates/objects (not the term-set enumerations that include graph names). Decides these structural necessary conditions for all "
               "pattern shapes and index widths, not BTreeSet/Term::eq themselves nor result equality across implementations.",
          note="Trusted: rustc MIR; the role-preserving callee list and iterator summaries in rules/roles.py; BTreeSet/HashMap.",
          technique="static: abstract interpretation (role propagation) over MIR + dominator / who-may-write rules + compile-fail witness"))
@@ -176,9 +176,9 @@ CHECKS.append(
          text="Comparator structure of ORDER BY: the per-key decision table of cmp_bindings_with (unbound first, DESC reverses only "
               "this key, ties broken by the remaining keys), the total-by-construction discipline (a partial comparison falling back "
               "to a different order is reported — one known finding on the unchanged tree), the datatype->parser table that gives "
-              "derived numeric types their value, (incl. the four lexical forms of xsd:boolean), operand order and promotion table of the numeric coercion, whether ORDER BY treats pairs of numbers itself (known finding: it hands them to the lossy-promoting `<`), and a panic audit of the comparator. Decides "
+              "derived numeric types their value, (incl. the four lexical forms of xsd:boolean), operand order and promotion table of the numeric coercion, whether ORDER BY treats pairs of numbers itself (known finding: it hands them to the lossy-promoting `<`), that sort keys are evaluated once per solution and not inside the comparator (known finding), that no decimal is narrowed through an f64 on the way to f32, and a panic audit of the comparator. Decides "
               "these structural clauses, not the numeric values compared.",
-         note="Trusted: rustc MIR; std sort. Known findings: sparql_order_by's partial order with Term::cmp fallback; numbers ordered by the promoting `<` (KNOWN_FINDINGS.txt).",
+         note="Trusted: rustc MIR; std sort. Known findings: sparql_order_by's partial order with Term::cmp fallback; numbers ordered by the promoting `<`; ORDER BY keys re-evaluated at every comparison (non-deterministic keys make the comparator inconsistent) (KNOWN_FINDINGS.txt).",
          technique="static: decision-table extraction over MIR paths + flow rule on Option<Ordering> fallbacks + table agreement"))
 NOT_APPLICABLE = [
     dict(property_id="C17", reason="relativise/resolve inverse is an equation between runtime-computed strings "
